@@ -1750,6 +1750,12 @@ cd {ROOT}
             else:
                 a.setResult("skipped (package already installed)", SKIPPED)
 
+        # Somebody else installed the package. Record us as user before linking
+        # to it. Keep our workspace if it has been collected in the meantime.
+        if self.__useSharedPackages and not wasInstalled:
+            sharedPath, _ = self.__share.useSharedPackage(prettyPackagePath, buildId)
+            if sharedPath is None: return
+
         if self.__useSharedPackages:
             sharedWorkspace = os.path.join(sharedPath, "workspace")
             sharedAudit = os.path.join(sharedPath, "audit.json.gz")
